@@ -150,7 +150,7 @@ def run(ctx):
                 "checked by the theorems over Gen/Globals.v; non-trivial = operations whose sequential reference produced output bytes or more than two parser events",
         "input_distribution": {"thread_counts": [r["threads"] for r in runs], "ops_per_thread": [r["ops"] for r in runs],
                                "documents": len(docs), "document_dirs": sorted(set(os.path.basename(os.path.dirname(d)) for d in docs)),
-                               "operation_kinds": "xml2wbxml, wbxml2xml, parser with callbacks, tree+encoder (both outputs), conversions of damaged documents; uniform by seed",
+                               "operation_kinds": "xml2wbxml, wbxml2xml, parser with callbacks, tree+encoder (both outputs), tree-api+encoder, flow-mode encoder (encode_node per child, delete_last_node, get_output), tree build API (add_xml_elt_with_attrs / add_text / add_cdata / extract_node, then both encodings), conversions of damaged documents; uniform by seed",
                                "static_objects": len(inv["objects"]), "allocated_sections": len(inv["sections"]), "imports": len(inv["imported"])},
         "samples": [{"threads": r["threads"], "harness_seed": r["seed"], "result": r["done"]} for r in runs[:6]] +
                    [{"object": "%s:%s" % (o["file"], o["name"]), "section": o["section"], "bind": o["bind"], "size": o["size"]} for o in inv["objects"][:: max(1, len(inv["objects"]) // 6)]][:7] +
